@@ -267,3 +267,61 @@ m("c08-first-row-always", ["C08"], "osaca/semantics/hw_model.py",
 m("c08-inplace-extend", ["C08", "C18"], "osaca/semantics/arch_semantics.py",
   "                            data_port_uops = data_port_uops + st_data_port_uops",
   "                            data_port_uops += st_data_port_uops")
+
+# ---- C11 / C13
+m("c11-start-off", ["C11"], "osaca/semantics/marker_utils.py",
+  "                        index_start = i + 1 + line_count", "                        index_start = i + line_count")
+m("c11-end-off", ["C11"], "osaca/semantics/marker_utils.py",
+  "                        # return line of the marker\n                        index_end = i",
+  "                        # return line of the marker\n                        index_end = i + 1")
+m("c11-range-exclusive", ["C11"], "osaca/osaca.py",
+  "            rnge = list(range(start, end + 1))", "            rnge = list(range(start, end))")
+m("c11-marker-value-ge", ["C11"], "osaca/semantics/marker_utils.py",
+  "                    and parser.normalize_imd(source) == mov_vals[0]",
+  "                    and parser.normalize_imd(source) >= mov_vals[0] and parser.normalize_imd(source) < mov_vals[1]")
+m("c11-comment-latency", ["C11"], "osaca/semantics/arch_semantics.py",
+  "            # No instruction (label, comment, ...) --> ignore\n            throughput = 0.0\n            latency = 0.0",
+  "            # No instruction (label, comment, ...) --> ignore\n            throughput = 0.0\n            latency = 1.0 if instruction_form.comment is not None else 0.0")
+m("c11-marker-reg-any", ["C11"], "osaca/semantics/marker_utils.py",
+  """                    and isinstance(destination, RegisterOperand)
+                    and parser.get_full_reg_name(destination) == mov_reg
+                ):
+                    # operands of first instruction match start, check for second one""",
+  """                    and isinstance(destination, RegisterOperand)
+                ):
+                    # operands of first instruction match start, check for second one""")
+m("c13-separator-shift", ["C13"], "osaca/frontend.py",
+  "        for i in range(len(self._machine_model.get_ports()) - 1):\n            match_1 = re.search(r\"\\d+\", self._machine_model.get_ports()[i])",
+  "        for i in range(1, len(self._machine_model.get_ports())):\n            match_1 = re.search(r\"\\d+\", self._machine_model.get_ports()[i - 1])")
+m("c13-lcd-min", ["C13"], "osaca/frontend.py",
+  """        if dep_dict:
+            longest_lcd = max(dep_dict, key=lambda ln: dep_dict[ln]["latency"])
+            lcd_sum = dep_dict[longest_lcd]["latency"]
+            lcd_lines = {
+                instr.line_number: lat for instr, lat in dep_dict[longest_lcd]["dependencies"]
+            }
+
+        port_line""",
+  """        if dep_dict:
+            longest_lcd = min(dep_dict, key=lambda ln: dep_dict[ln]["latency"])
+            lcd_sum = dep_dict[longest_lcd]["latency"]
+            lcd_lines = {
+                instr.line_number: lat for instr, lat in dep_dict[longest_lcd]["dependencies"]
+            }
+
+        port_line""")
+m("c13-summary-despite-unknown", ["C13"], "osaca/frontend.py",
+  "        if not ignore_unknown and INSTR_FLAGS.TP_UNKWN in [",
+  "        if False and not ignore_unknown and INSTR_FLAGS.TP_UNKWN in [")
+m("c13-warning-flags-swapped", ["C13"], "osaca/frontend.py",
+  "            + self._user_warnings_header(arch_warning, length_warning)",
+  "            + self._user_warnings_header(length_warning, arch_warning)")
+m("c13-precision", ["C13"], "osaca/frontend.py",
+  '            substr = "{:" + str(left_len) + "." + str(max(port_len[i] - left_len - 1, 0)) + "f}"',
+  '            substr = "{:" + str(left_len) + "." + str(max(port_len[i] - left_len - 2, 0)) + "f}"')
+m("c13-missing-count", ["C13"], "osaca/frontend.py",
+  "                [instr.flags for instr in kernel if INSTR_FLAGS.TP_UNKWN in instr.flags]\n            )",
+  "                [instr.flags for instr in kernel if INSTR_FLAGS.TP_UNKWN in instr.flags]\n            ) + 1")
+m("c13-length-threshold", ["C13"], "osaca/osaca.py",
+  "            True if len(kernel) == len(parsed_code) and len(kernel) > 100 else False",
+  "            True if len(kernel) == len(parsed_code) and len(kernel) > 150 else False")
